@@ -29,6 +29,15 @@ fn v_default_like(p: &[u8]) -> Result<(), RErr> {
     rbpf::EbpfVmNoData::new(Some(p)).map(|_| ())
 }
 
+/// stack-usage calculator installed by the SetCalc operation: depends on the PROGRAM (its id byte),
+/// so frame sizes computed for one program are recognisably wrong for another
+fn calc_by_prog(prog: &[u8], _pc: usize, _d: &mut dyn std::any::Any) -> u16 {
+    8 * (1 + (prog[4] % 16) as u16)
+}
+fn frame_of(p: &PoolProg, calc: bool) -> u64 {
+    if calc { 8 * (1 + (p.bytes[4] % 16) as u64) } else { 256 }
+}
+
 #[derive(Clone, Copy, PartialEq, Eq, Debug)]
 enum Ver {
     Default,
@@ -42,6 +51,8 @@ struct PoolProg {
     bytes: Vec<u8>,
     id: u64,
     needs_helper: bool,
+    /// the program reports its caller-to-callee frame pointer distance (xor-ed into the id)
+    frame_probe: bool,
     default_ok: bool,
     /// offsets the program was written for (fixed VM probe programs)
     probe: Option<(usize, usize)>,
@@ -53,10 +64,11 @@ const HARGS: [u64; 5] = [11, 22, 33, 44, 55];
 fn mk_pool(rng: &mut Rng, pkt_addr: u64) -> Vec<PoolProg> {
     let mut pool = Vec::new();
     let mut next_id = |rng: &mut Rng, parity: u64| -> u64 { ((rng.next() & 0x7fff_ffff_ffff_ff00) | (rng.below(127) * 2 + parity)) & !0x8000_0000 };
-    for k in 0..10 {
+    for k in 0..12 {
         let id = next_id(rng, k % 2);
         let mut v: Vec<Insn> = vec![Insn::new(LDDW, 0, 0, 0, id as u32 as i32), Insn::new(0, 0, 0, 0, (id >> 32) as u32 as i32)];
         let mut needs_helper = false;
+        let mut frame_probe = false;
         let mut default_ok = true;
         let mut probe = None;
         match k {
@@ -77,6 +89,17 @@ fn mk_pool(rng: &mut Rng, pkt_addr: u64) -> Vec<PoolProg> {
                 v.push(Insn::new(JA, 0, 0, 1, 0));
                 v.push(Insn::new(JA, 0, 0, -1, 0));
             }
+            10 | 11 => {
+                // local call; the callee returns caller_r10 - own_r10 (= the caller's frame size)
+                frame_probe = true;
+                v.push(Insn::new(MOV64_REG, 6, 0, 0, 0));
+                v.push(Insn::new(MOV64_REG, 2, 10, 0, 0));
+                v.push(Insn::new(CALL, 0, 1, 0, 2));
+                v.push(Insn::new(XOR64_REG, 0, 6, 0, 0));
+                v.push(Insn::new(EXIT, 0, 0, 0, 0));
+                v.push(Insn::new(SUB64_REG, 2, 10, 0, 0));
+                v.push(Insn::new(MOV64_REG, 0, 2, 0, 0));
+            }
             _ => {
                 // probe for the fixed-metadata VM: reads the packet pointer at its own data offset
                 let offs = if k == 8 { (0usize, 8usize) } else { (24, 16) };
@@ -89,7 +112,7 @@ fn mk_pool(rng: &mut Rng, pkt_addr: u64) -> Vec<PoolProg> {
             }
         }
         v.push(Insn::new(EXIT, 0, 0, 0, 0));
-        pool.push(PoolProg { bytes: encode_prog(&v), id, needs_helper, default_ok, probe });
+        pool.push(PoolProg { bytes: encode_prog(&v), id, needs_helper, frame_probe, default_ok, probe });
     }
     // one byte string no verifier-independent reading can run: truncated (7 bytes) - only loadable
     // under accept-all; never executed by the generator after such a load
@@ -133,16 +156,20 @@ struct Model {
     prog: Option<usize>,
     ver: Ver,
     helper: Option<usize>,
-    /// (program compiled, helper function at compile time)
-    jit: Option<(usize, Option<usize>)>,
-    cl: Option<(usize, Option<usize>)>,
+    calc: bool,
+    /// (program compiled, helper function at compile time, calculator installed at compile time)
+    jit: Option<(usize, Option<usize>, bool)>,
+    cl: Option<(usize, Option<usize>, bool)>,
     /// program loads since the artefact was compiled
     jit_stale: bool,
     cl_stale: bool,
     offs: (usize, usize),
 }
 
-fn value_of(p: &PoolProg, helper: Option<usize>, offs: (usize, usize), kind: Kind) -> Option<Vec<u64>> {
+fn value_of(p: &PoolProg, helper: Option<usize>, offs: (usize, usize), kind: Kind, calc: bool) -> Option<Vec<u64>> {
+    if p.frame_probe {
+        return Some(vec![p.id ^ frame_of(p, calc)]);
+    }
     // set of acceptable values (None = execution must fail)
     if p.needs_helper {
         let j = helper?;
@@ -233,7 +260,7 @@ pub fn run(a: &Args, rep: &mut Report) {
                         Ok(()) => Obs::Ok,
                         Err(_) => Obs::Err,
                     },
-                    Op::SetCalc => match vm.as_mut().unwrap().set_calc(|_, _, _| 64, Box::new(())) {
+                    Op::SetCalc => match vm.as_mut().unwrap().set_calc(calc_by_prog, Box::new(())) {
                         Ok(()) => Obs::Ok,
                         Err(_) => Obs::Err,
                     },
@@ -289,7 +316,7 @@ pub fn run(a: &Args, rep: &mut Report) {
         rep.case(Some(crate::util::fnv(format!("{kind:?}{ops:?}").as_bytes())));
         rep.add("api_calls", ops.len() as u64);
         let w = |upto: usize| json!({"kind": "api-history", "vm": kind.name(), "ops": ops.iter().take(upto + 1).map(|o| format!("{o:?}")).collect::<Vec<_>>(),
-            "pool": pool.iter().map(|p| json!({"id": format!("{:#x}", p.id), "needs_helper": p.needs_helper, "default_ok": p.default_ok, "probe": format!("{:?}", p.probe), "prog": hex(&p.bytes)})).collect::<Vec<_>>()});
+            "pool": pool.iter().map(|p| json!({"id": format!("{:#x}", p.id), "needs_helper": p.needs_helper, "frame_probe": p.frame_probe, "default_ok": p.default_ok, "probe": format!("{:?}", p.probe), "prog": hex(&p.bytes)})).collect::<Vec<_>>()});
         let b = match e {
             CaseEnd::Done(b) => b,
             CaseEnd::Died(s, _) => {
@@ -305,7 +332,7 @@ pub fn run(a: &Args, rep: &mut Report) {
                 continue;
             }
         };
-        let mut m = Model { exists: false, prog: None, ver: Ver::Default, helper: None, jit: None, cl: None, jit_stale: false, cl_stale: false, offs: (0, 8) };
+        let mut m = Model { exists: false, prog: None, ver: Ver::Default, helper: None, calc: false, jit: None, cl: None, jit_stale: false, cl_stale: false, offs: (0, 8) };
         let mut pos = 0usize;
         let mut last_exec: Option<(u64, usize)> = None; // (value, model epoch) for history independence
         let mut epoch = 0usize;
@@ -356,7 +383,7 @@ pub fn run(a: &Args, rep: &mut Report) {
                     let ok = p.map(|i| pool[i].default_ok).unwrap_or(true);
                     match (&obs, ok) {
                         (Obs::Ok, true) => {
-                            m = Model { exists: true, prog: *p, ver: Ver::Default, helper: None, jit: None, cl: None, jit_stale: false, cl_stale: false, offs: p.map(|i| pool[i].probe.unwrap_or((0, 8))).unwrap_or((0, 8)) };
+                            m = Model { exists: true, prog: *p, ver: Ver::Default, helper: None, calc: false, jit: None, cl: None, jit_stale: false, cl_stale: false, offs: p.map(|i| pool[i].probe.unwrap_or((0, 8))).unwrap_or((0, 8)) };
                             epoch += 1;
                         }
                         (Obs::Err, false) => { /* the previous VM object (if any) stays in use */ }
@@ -402,6 +429,8 @@ pub fn run(a: &Args, rep: &mut Report) {
                     }
                 }
                 Op::SetCalc => {
+                    m.calc = true;
+                    epoch += 1;
                     if obs != Obs::Ok {
                         fail(rep, "verdict", format!("set_stack_usage_calculator returned {obs:?}"));
                     }
@@ -409,15 +438,16 @@ pub fn run(a: &Args, rep: &mut Report) {
                 Op::JitCompile | Op::ClCompile => {
                     let ok = match m.prog {
                         None => false,
-                        Some(i) => !pool[i].needs_helper || m.helper.is_some(),
+                        // (Cranelift refuses programs with eBPF-to-eBPF calls)
+                        Some(i) => (!pool[i].needs_helper || m.helper.is_some()) && !(matches!(op, Op::ClCompile) && pool[i].frame_probe),
                     };
                     match (&obs, ok) {
                         (Obs::Ok, true) => {
                             if matches!(op, Op::JitCompile) {
-                                m.jit = Some((m.prog.unwrap(), m.helper));
+                                m.jit = Some((m.prog.unwrap(), m.helper, m.calc));
                                 m.jit_stale = false;
                             } else {
-                                m.cl = Some((m.prog.unwrap(), m.helper));
+                                m.cl = Some((m.prog.unwrap(), m.helper, m.calc));
                                 m.cl_stale = false;
                             }
                         }
@@ -429,7 +459,7 @@ pub fn run(a: &Args, rep: &mut Report) {
                     }
                 }
                 Op::Exec => {
-                    let want = m.prog.and_then(|i| value_of(&pool[i], m.helper, m.offs, *kind));
+                    let want = m.prog.and_then(|i| value_of(&pool[i], m.helper, m.offs, *kind, m.calc));
                     match (&obs, &want) {
                         (Obs::Err, None) => {}
                         (Obs::Val(v), Some(ws)) if ws.contains(v) => {
@@ -442,6 +472,7 @@ pub fn run(a: &Args, rep: &mut Report) {
                         }
                         (Obs::Val(v), _) => {
                             let whose = pool.iter().position(|p| p.id == *v || p.id ^ v < 1 << 20);
+                            let _ = frame_of;
                             fail(rep, if whose.is_some() && whose != m.prog { "stale-program-ran" } else { "wrong-value" }, format!("execute returned {v:#x}; loaded program #{:?} should give {:x?} (value belongs to pool program #{whose:?})", m.prog, want));
                             stop = true;
                         }
@@ -460,14 +491,16 @@ pub fn run(a: &Args, rep: &mut Report) {
                                 stop = true;
                             }
                         }
-                        Some((_cp, ch)) => {
+                        Some((_cp, ch, ccalc)) => {
                             // the program that runs must be the one most recently loaded; after a
                             // re-load, either its value or the "not compiled" error is acceptable
                             let cur = m.prog.unwrap();
                             let mut ok_vals: Vec<u64> = Vec::new();
                             for h in [ch, m.helper] {
-                                if let Some(v) = value_of(&pool[cur], h, m.offs, *kind) {
-                                    ok_vals.extend(v);
+                                for cc in [ccalc, m.calc] {
+                                    if let Some(v) = value_of(&pool[cur], h, m.offs, *kind, cc) {
+                                        ok_vals.extend(v);
+                                    }
                                 }
                             }
                             match &obs {
